@@ -132,5 +132,11 @@ def same_value(f, o1, o2):
                 if o[0] == "v" and p in f.paths(o):
                     writes.append(i)
     first, second = (A, B) if f.dominates(A, B) else (B, A)
-    r = f.reach([first], stop=lambda x: x.i == second.i)
-    return not any(w.i in r for w in writes)
+    r = f.reach([first], stop=lambda x: x.i == second.i or x.i == first.i)
+    for w in writes:
+        if w.i in r and w.i != second.i:
+            # the write lies between the loads only if the second load is reachable from it without re-executing the first
+            r2 = f.reach([w], stop=lambda x: x.i == first.i or x.i == second.i)
+            if second.i in r2:
+                return False
+    return True
